@@ -104,7 +104,7 @@ func standardScript(rng *rand.Rand, r *Run, closeProb int) {
 	d3 := r.Do(Op{Kind: OpCreate, Scope: d2.NewScope, CtxKind: 2})
 	ProbeRegistered(r, d3.NewScope)
 	ProbeRegistered(r, 0)
-	ProbeRegistered(r, deep.NewScope)
+	ProbeRegisteredReverse(r, deep.NewScope)
 	r.Finish()
 }
 
@@ -134,6 +134,14 @@ func c01Witnesses() []*Spec {
 		{Regs: []Reg{mkReg("OutN_K0K1", godi.Singleton), mkReg("InU_2_1_Keyed", godi.Transient)}},
 		// D9: Out struct with a group field
 		{Regs: []Reg{mkReg("OutG_K0K1", godi.Singleton)}},
+		// several outputs / aliases of which the FIRST (or a later one) was removed again
+		{Regs: []Reg{mkReg("MR_S1S2S5e", godi.Singleton), {Remove: true, RmType: "S1", Tail: true}}},
+		{Regs: []Reg{mkReg("MR_S1S2S5e", godi.Singleton), {Remove: true, RmType: "S2", Tail: true}}},
+		{Regs: []Reg{mkReg("Leaf_K1_a", godi.Singleton, withAs("IK1", "IA", "IB")), {Remove: true, RmType: "IK1", Tail: true}, mkReg("InU_0_2_Iface", godi.Scoped)}},
+		{Regs: []Reg{mkReg("OutP_K0K1", godi.Singleton), {Remove: true, RmType: "K0", Tail: true}, mkReg("Leaf_K0_b", godi.Transient), mkReg("PosA_2_3", godi.Scoped)}},
+		{Regs: []Reg{mkReg("MR_K0K1", godi.Singleton), {Remove: true, RmType: "K0", Tail: true}, mkReg("Leaf_K0_c", godi.Singleton), mkReg("PosA_2_3", godi.Singleton)}},
+		// initializer-style singletons (no service result) must not run again for later scopes
+		{Regs: []Reg{mkReg("Void0", godi.Singleton), mkReg("ErrOnly0", godi.Singleton), mkReg("Leaf_K0_a", godi.Singleton), mkReg("VoidK0", godi.Singleton), mkReg("Void0b", godi.Scoped)}},
 	}
 }
 
@@ -272,6 +280,11 @@ func init() {
 
 func runC03(c *eng.Ctx) {
 	cr := &caseRunner{c: c, prop: "C03"}
+	defer func() {
+		if C03Concurrent != nil {
+			C03Concurrent(c, cr.next)
+		}
+	}()
 	finish := func(idx int, r *Run, kind string) {
 		o := Digest(r)
 		report(c, "C03", idx, r, MonC03(r, o))
